@@ -29,6 +29,11 @@ HasPosBranch(f) == f.kind = "alt" /\ \E b \in DOMAIN f.branches : \E x \in Range
 POOL == "$pos"
 NamedMembers(f) == {f.members[m] : m \in {m \in DOMAIN f.members : f.members[m].kind # "pos"}}
 PosMembers(f)   == SelectSeq(f.members, LAMBDA m : m.kind = "pos")
+\* `head_at` > 0: that many (optional, valued) members are declared IN FRONT of the tag.  bpaf looks for the start of a
+\* block with a window as wide as the first declared item - two items for an argument -, in which any named member of
+\* the group fits: such a block may start with any of them, and the tag is one required member among the others
+Wide(f) == "head_at" \in DOMAIN f /\ f.head_at > 0
+BlockMembers(f) == NamedMembers(f) \cup (IF Wide(f) THEN {f.head} ELSE {})
 \* the first item of an adjacent group is a required flag, or - for an adjacent subcommand - its name
 AdjLeaves(f)    == (IF f.head.kind = "cmd" THEN {} ELSE {f.head}) \cup NamedMembers(f)
 CmdHeadOf(d, w) == {k \in {k \in DOMAIN d.named : d.named[k].kind = "adj"} :
@@ -42,7 +47,9 @@ AdjOf(d, id)    == {k \in AdjFields(d) : id \in {x.id : x \in AdjLeaves(d.named[
 NoOpen == [k |-> 0, p |-> 0, filled |-> <<>>, words |-> <<>>]
 GInitSt(d) == [acc |-> [i \in {x.id : x \in GLeaves(d)} |-> <<>>], pos |-> <<>>,
                blocks |-> [k \in AdjFields(d) |-> <<>>], open |-> NoOpen, pending |-> "",
-               posOnly |-> FALSE, dead |-> "", help |-> FALSE, n |-> 0, recent |-> 0, cut |-> 0, hp |-> <<>>, win |-> 0]
+               posOnly |-> FALSE, dead |-> "", help |-> FALSE, n |-> 0, recent |-> 0, cut |-> 0, hp |-> <<>>, win |-> 0,
+               \* the line left what the specification makes a statement about (see Wide)
+               out |-> FALSE]
 
 GKill(gs, why) == [gs EXCEPT !.dead = IF @ = "" THEN why ELSE @]
 FilledIds(gs)  == {gs.open.filled[i].id : i \in DOMAIN gs.open.filled}
@@ -50,11 +57,11 @@ FilledIds(gs)  == {gs.open.filled[i].id : i \in DOMAIN gs.open.filled}
 \* is the open block complete (every required member present)?
 Complete(d, gs) ==
   LET g == d.named[gs.open.k] IN
-  /\ \A m \in NamedMembers(g) : (m.kind = "reqflag" \/ (m.kind = "arg" /\ m.arity = "one")) => m.id \in FilledIds(gs)
+  /\ \A m \in BlockMembers(g) : (m.kind = "reqflag" \/ (m.kind = "arg" /\ m.arity = "one")) => m.id \in FilledIds(gs)
   /\ Len(gs.open.words) = Len(PosMembers(g))
 Full(d, gs) ==
   LET g == d.named[gs.open.k] IN
-  /\ \A m \in NamedMembers(g) : m.id \in FilledIds(gs)
+  /\ \A m \in BlockMembers(g) : m.id \in FilledIds(gs)
   /\ Len(gs.open.words) = Len(PosMembers(g))
 \* a member of the open block holds a value that fails conversion or its guard
 BlockBad(d, gs) ==
@@ -77,7 +84,7 @@ GAcc(gs, id, v)  == [gs EXCEPT !.acc[id] = Append(@, [v |-> v, p |-> gs.n])]
 Fill(d, gs, id, v) == AutoClose(d, [gs EXCEPT !.open.filled = Append(@, [id |-> id, v |-> v])])
 InOpenBlock(d, gs, it) ==
   /\ gs.open.k # 0
-  /\ it.id \in {m.id : m \in NamedMembers(d.named[gs.open.k])}
+  /\ it.id \in {m.id : m \in BlockMembers(d.named[gs.open.k])}
   /\ it.id \notin FilledIds(gs)
 
 \* a named item: hasv = the value is attached (--n=v, -nv); otherwise a flag or a pending argument
@@ -86,11 +93,23 @@ GName(d, gs, n, hasv, v) ==
   IF own = {} THEN GKill(Close(d, gs), "unknown")
   ELSE LET it == CHOOSE x \in own : TRUE IN
     IF InOpenBlock(d, gs, it)
-    THEN IF it.kind = "arg" THEN (IF hasv THEN Fill(d, gs, it.id, v) ELSE [gs EXCEPT !.pending = it.id])
-         ELSE (IF hasv THEN GKill(gs, "unexpected") ELSE Fill(d, gs, it.id, "U"))
+    THEN \* (where a block of a wide group starts when a member declared in front of the tag is typed later inside it
+         \* depends on what happens to stand next to it: no statement is made about such lines)
+         LET g == d.named[gs.open.k]
+             late == Wide(g) /\ (gs.open.filled # <<>> \/ gs.open.words # <<>>) /\
+                     \E j \in 1..g.head_at : g.members[j].id = it.id
+             gs1 == IF late THEN [gs EXCEPT !.out = TRUE] ELSE gs IN
+         IF it.kind = "arg" THEN (IF hasv THEN Fill(d, gs1, it.id, v) ELSE [gs1 EXCEPT !.pending = it.id])
+         ELSE (IF hasv THEN GKill(gs1, "unexpected") ELSE Fill(d, gs1, it.id, "U"))
     ELSE LET s1 == Close(d, gs)  ks == AdjOf(d, it.id) IN
       IF ks # {} THEN
            LET k == CHOOSE k \in ks : TRUE IN
+           IF Wide(d.named[k])
+           THEN \* any named member opens the block and is its first item
+                LET s2 == [s1 EXCEPT !.open = [k |-> k, p |-> s1.n, filled |-> <<>>, words |-> <<>>]] IN
+                IF it.kind = "arg" THEN (IF hasv THEN Fill(d, s2, it.id, v) ELSE [s2 EXCEPT !.pending = it.id])
+                ELSE (IF hasv THEN GKill(s2, "unexpected") ELSE Fill(d, s2, it.id, "U"))
+           ELSE
            IF d.named[k].head.id = it.id /\ ~hasv
            THEN AutoClose(d, [s1 EXCEPT !.open = [k |-> k, p |-> s1.n, filled |-> <<>>, words |-> <<>>]])
            ELSE GKill(s1, "unknown")              \* a member outside of a block of its group
@@ -339,7 +358,10 @@ BlockVal(g, b) ==
       PosIx(k) == Cardinality({i \in 1..k : g.members[i].kind = "pos"})
       mv == [k \in DOMAIN g.members |-> MemberV(g.members[k], PosIx(k))] IN
   IF \E k \in DOMAIN mv : ~mv[k].ok THEN [ok |-> FALSE]
-  ELSE [ok |-> TRUE, v |-> [t |-> (IF g.head.kind = "cmd" THEN <<>> ELSE <<"U">>) \o [k \in DOMAIN mv |-> mv[k].v]]]
+  ELSE LET vs == [k \in DOMAIN mv |-> mv[k].v]
+           at == IF Wide(g) THEN g.head_at ELSE 0 IN       \* the tag's place among the members
+       [ok |-> TRUE, v |-> [t |-> IF g.head.kind = "cmd" THEN vs
+                                   ELSE SubSeq(vs, 1, at) \o <<"U">> \o SubSeq(vs, at + 1, Len(vs))]]
 
 AdjVal(g, B) ==
   LET bv == [i \in DOMAIN B |-> BlockVal(g, B[i])] IN
